@@ -1,9 +1,11 @@
 import Tranp.Driver.Common
 import Tranp.Driver.Tree
+import Tranp.Driver.Proc
 
 open Tranp.Driver
 
 def main (args : List String) : IO UInt32 := do
   match args with
   | ["tree"] => Tree.run; return 0
+  | ["proc"] => Proc.run; return 0
   | _ => IO.eprintln s!"unknown driver family: {args}"; return 2
